@@ -338,7 +338,25 @@ func (e *Exec) appendBuiltin(fr *Frame, st *State, ins ssa.Instruction, cc *ssa.
 	et := st0.Elem()
 	s := args[0].T
 	if isStructT(et) || isArrayT(et) {
-		e.note("append to slice of aggregates abstracted")
+		if isStructT(et) {
+			// elements of struct slices live in the per-field arrays of the element type: an append writes only those
+			e.note("append to slice of structs abstracted (element type's field arrays havocked, result length exact)")
+			ms := newModSet()
+			e.eng.addTypeWrites(ms, e, et)
+			for n, srt := range ms.heap {
+				if e.frameOn && !e.frameOff {
+					e.wholeArrayFrame(st, n)
+				}
+				e.heapSet(st, n, e.c.Fresh(n+"@append", e.fixSort(srt)))
+			}
+			e.bumpAlloc(st)
+			r := e.havocVal(st, cc.Args[0].Type(), "append").T
+			if !isString(cc.Args[1].Type()) {
+				e.assume(st, e.c.Eq(e.tm.SliceLen(r), e.c.Add(e.tm.SliceLen(s), e.tm.SliceLen(args[1].T))))
+			}
+			return r
+		}
+		e.note("append to slice of arrays abstracted")
 		e.havocAll(st)
 		return e.havocVal(st, cc.Args[0].Type(), "append").T
 	}
@@ -631,6 +649,12 @@ func (e *Exec) callByContract(fr *Frame, st *State, ins ssa.Instruction, sp *Fun
 			e.heapSet(st, l.arr, c.Store(cur, l.ref, c.Fresh(l.arr+"@call", es)))
 		}
 		e.bumpAlloc(st)
+		for _, pk := range sp.ModPkgs {
+			if e.frameOn && !e.frameOff {
+				e.wholeArrayFrame(st, "pkg "+pk)
+			}
+			e.havocPkg(st, pk)
+		}
 	} else if len(sp.ModPkgs) > 0 {
 		for _, pk := range sp.ModPkgs {
 			if e.frameOn && !e.frameOff {
@@ -684,13 +708,14 @@ func (e *Exec) havocValFresh(st *State, ty types.Type, hint string) Val {
 }
 
 func (e *Exec) wholeArrayFrame(st *State, arr string) {
-	has := false
-	for _, l := range e.frameLocs {
-		if l.arr == arr {
-			has = true
+	// a package-scoped effect is covered when the function under verification declares the same package
+	if e.top != nil {
+		for _, pk := range e.top.ModPkgs {
+			if arr == "pkg "+pk || arrayOfPkg(arr, pk) {
+				return
+			}
 		}
 	}
-	_ = has
 	e.oblige(st, "frame", "frame:"+arr+":whole", e.c.False(), token.NoPos)
 }
 
